@@ -67,6 +67,8 @@ uint64_t g_traceHash = 1469598103934665603ull;
 uint64_t g_runLen = 0;
 uint64_t g_minDeadline = 0; // 0 = none pending (lower bound hint)
 bool g_fair = false;
+bool g_inCb = false;
+bool g_trace = false; // DS_TRACE=1: log blocking operations to stderr // harness callbacks run inside the scheduler: their atomics are not schedule points
 uint64_t g_fairSinceProgress = 0;
 uint64_t g_fairStart = 0;
 long g_lowPrio = -1;
@@ -138,6 +140,7 @@ std::string table() {
 
 [[noreturn]] void deadlock() {
   std::string t = table();
+  g_inCb = true;
   if (g_onDeadlock)
     g_onDeadlock(t.c_str());
   fprintf(stderr, "DSCHED: DEADLOCK %s\n", t.c_str());
@@ -225,8 +228,11 @@ Th* pick(Th* notMe) {
       g_now = best->deadline;
     ++g_jumps;
     mix(0x9999 + best->id);
-    if (g_onJump)
+    if (g_onJump) {
+      g_inCb = true;
       g_onJump(&j);
+      g_inCb = false;
+    }
     g_minDeadline = g_now; // force scan
     expire();
   }
@@ -256,7 +262,7 @@ void enter_fair_or_fail() {
 
 void yield_point(bool force = false) {
   Th* me = t_self;
-  if (!g_active || !me)
+  if (!g_active || !me || g_inCb)
     return;
   ++g_points;
   ++g_runLen;
@@ -266,6 +272,7 @@ void yield_point(bool force = false) {
     uint64_t fp = g_cfg.fair_points ? g_cfg.fair_points : 1500000;
     if (g_fairSinceProgress > fp) {
       std::string t = table();
+      g_inCb = true;
       if (g_onLivelock)
         g_onLivelock(t.c_str(), 1);
       fprintf(stderr, "DSCHED: LIVELOCK %s\n", t.c_str());
@@ -273,6 +280,7 @@ void yield_point(bool force = false) {
     }
     if (g_points - g_fairStart > 12 * fp) {
       std::string t = table();
+      g_inCb = true;
       if (g_onLivelock)
         g_onLivelock(t.c_str(), 0);
       fprintf(stderr, "DSCHED: BUDGET %s\n", t.c_str());
@@ -544,6 +552,7 @@ void dsched_begin(const dsched_cfg* cfg) {
     g_stallAt = 1 + rnd() % est;
     g_stallLen = 50 + rnd() % (est / 2 + 50);
   }
+  g_trace = getenv("DS_TRACE") != nullptr;
   g_active = true;
 }
 
@@ -601,6 +610,22 @@ int dsched_count_runnable() {
       ++c;
   return c;
 }
+int dsched_count_alive() {
+  int c = 0;
+  for (Th* t : g_threads)
+    if (t != t_self && t->st != kFinished)
+      ++c;
+  return c;
+}
+int dsched_thread_state(int tid, int* timed) {
+  for (Th* t : g_threads)
+    if (t->id == tid) {
+      if (timed)
+        *timed = t->deadline ? 1 : 0;
+      return t->st == kBlocked ? t->why : (t->st == kFinished ? -1 : 0);
+    }
+  return -2;
+}
 int dsched_settle(uint64_t max_points) {
   if (!on())
     return 1;
@@ -621,6 +646,11 @@ void dsched_sleep_ns(uint64_t ns) {
   if (!on())
     return;
   block(DS_WHY_SLEEP, nullptr, g_now + ns + 1);
+}
+const char* dsched_table() {
+  static std::string t;
+  t = table();
+  return t.c_str();
 }
 const char* dsched_trace_tail() {
   g_tailStr.clear();
@@ -890,6 +920,9 @@ long syscall(long n, ...) {
     const timespec* ts = (const timespec*)a[3];
     if (op == FUTEX_WAIT || op == FUTEX_WAIT_BITSET) {
       yield_point();
+      if (g_trace)
+        fprintf(stderr, "[%lu] th%d futex_wait %p val=%d cur=%d timed=%d\n", (unsigned long)g_points, t_self->id, (void*)addr, val,
+                __atomic_load_n(addr, __ATOMIC_SEQ_CST), ts ? 1 : 0);
       if (__atomic_load_n(addr, __ATOMIC_SEQ_CST) != val) {
         errno = EAGAIN;
         return -1;
@@ -906,6 +939,9 @@ long syscall(long n, ...) {
       return 0;
     } else if (op == FUTEX_WAKE || op == FUTEX_WAKE_BITSET) {
       int c = wake_on(DS_WHY_FUTEX, addr, val);
+      if (g_trace)
+        fprintf(stderr, "[%lu] th%d futex_wake %p n=%d woke=%d cur=%d\n", (unsigned long)g_points, t_self->id, (void*)addr, val, c,
+                __atomic_load_n(addr, __ATOMIC_SEQ_CST));
       yield_point();
       return c;
     }
